@@ -157,7 +157,7 @@ func UnmarshalResource(data []byte, schema *Schema) (Resource, error) {
 
 	for a, v := range rske.Attributes {
 		if attr, ok := typ.Attrs[a]; ok {
-			val, err := attr.UnmarshalToType(v)
+			val, err := attr.unmarshalToType(v)
 			if err != nil {
 				return nil, err
 			}
@@ -239,7 +239,7 @@ func UnmarshalPartialResource(data []byte, schema *Schema) (*SoftResource, error
 
 	for a, v := range rske.Attributes {
 		if attr, ok := typ.Attrs[a]; ok {
-			val, err := attr.UnmarshalToType(v)
+			val, err := attr.unmarshalToType(v)
 			if err != nil {
 				return nil, err
 			}
